@@ -53,6 +53,22 @@ def lam(vars_, body):
     return a
 
 
+def named_array(eng, ufname, args, vars_, body_fn):
+    """array given as an uninterpreted-function term f(args) plus the pointwise defining axiom of this instance:
+    two constructions from equal arguments are equal by congruence (no extensionality reasoning needed)."""
+    body = body_fn(*vars_)
+    srt = z3.ArraySort(*([v.sort() for v in vars_] + [body.sort()]))
+    f = eng.uf(ufname, *([a.sort() for a in args] + [srt]))
+    t = f(*args)
+    st = _CUR[0]
+    key = 'named:%s:%s' % (ufname, ','.join(str(a.get_id()) for a in args))
+    if st is not None and key not in st.ghost:
+        st.ghost[key] = True
+        sel = z3.Select(t, *vars_)
+        st.pc.append(forall_p(list(vars_), sel == body, [sel]))
+    return t
+
+
 def zsort(ek):
     return sort_of(ek)
 
@@ -433,7 +449,9 @@ def transpose(eng, st, v):
     d = eng.arr_data(st, v)
     sh = eng.arr_shape(st, v)
     i, j = z3.Int(fresh_name('i')), z3.Int(fresh_name('j'))
-    return eng.mk_arr(st, 2, v.k[2], [sh[1], sh[0]], lam([i, j], z3.Select(d, j, i)))
+    _CUR[0] = st
+    return eng.mk_arr(st, 2, v.k[2], [sh[1], sh[0]],
+                      named_array(eng, 'transpose_' + elem_tag(v.k[2]), [d], [i, j], lambda a, b: z3.Select(d, b, a)))
 
 
 # ---------------------------------------------------------------- subscripts
@@ -495,6 +513,8 @@ def subscript_load(eng, st, base, sl, node):
         if is_ref_kind(v.k) and st.ghost.get('qdepth', 0) == 0:
             b = st.heap.bound('el:ref')
             st.assume(z3.And(v.t >= 0, v.t < st.heap.alloc, z3.Implies(base.t < b, v.t < b)))
+            if st.heap.known_below(base.t, st.heap.bound_pos('el:ref')):
+                st.heap.note_below(v.t, st.heap.bound_pos('el:ref'))
         return v
     if head == 'arr':
         return arr_load(eng, st, base, sl, node)
@@ -503,6 +523,8 @@ def subscript_load(eng, st, base, sl, node):
         return base.py[iv.py]
     if head == 'ddict':
         return ddict_get(eng, st, base, to_int(eng.ev(sl, st)), node)
+    if head == 'pdict':
+        return pdict_get(eng, st, base, to_int(eng.ev(sl, st)), node)
     raise Unsupported("subscript on %r (line %d)" % (k, getattr(node, 'lineno', 0)))
 
 
@@ -561,7 +583,10 @@ def gather_rows(eng, st, base, idx, node):
                                       z3.And(z3.Select(ia, q) >= -sh[0], z3.Select(ia, q) < sh[0])))
         eng.oblige(st, "bounds:gather@L%d" % node.lineno, 'bounds', g, node)
     r, c = z3.Int(fresh_name('r')), z3.Int(fresh_name('c'))
-    return eng.mk_arr(st, 2, base.k[2], [n, sh[1]], lam([r, c], z3.Select(d, z3.Select(ia, r), c)))
+    _CUR[0] = st
+    return eng.mk_arr(st, 2, base.k[2], [n, sh[1]],
+                      named_array(eng, 'gather_rows_' + elem_tag(base.k[2]), [d, ia], [r, c],
+                                  lambda a, b: z3.Select(d, z3.Select(ia, a), b)))
 
 
 def fancy_load(eng, st, base, idxs, node):
@@ -1312,3 +1337,43 @@ def np_median(eng, st, args, kw, node):
         raise Unsupported("np.median form")
     used(eng, "np.mean / np.median of all entries: uninterpreted functions of (contents, shape)")
     return vreal(_agg(eng, st, v, 'median'))
+
+
+# ---------------------------------------------------------------- {k: [] for k in range(n)}
+def dict_comp(eng, st, node):
+    """{k: [] for k in range(n)}: a dict keyed by 0..n-1 whose values are n distinct fresh empty lists.
+    Subscripting with an absent key raises KeyError."""
+    if len(node.generators) != 1 or node.generators[0].ifs:
+        raise Unsupported("dict comprehension form")
+    gen = node.generators[0]
+    parts = eng.resolve_dotted(gen.iter.func) if isinstance(gen.iter, ast.Call) else None
+    if not (parts == ['range'] and len(gen.iter.args) == 1 and isinstance(gen.target, ast.Name)
+            and isinstance(node.key, ast.Name) and node.key.id == gen.target.id
+            and isinstance(node.value, ast.List) and not node.value.elts):
+        raise Unsupported("dict comprehension form")
+    used(eng, "{k: [] for k in range(n)}: dict with keys 0..n-1 mapped to n pairwise distinct fresh empty lists")
+    n = to_int(eng.ev(gen.iter.args[0], st))
+    n = z3.If(n > 0, n, 0)
+    tbl_ref = eng.new_ref(st)
+    b0 = st.heap.alloc
+    na = z3.Int(fresh_name('alloc'))
+    st.assume(na >= b0 + n)
+    st.heap.new_epoch(na)
+    r = z3.Int(fresh_name('r'))
+    old_len = st.heap.get('len')
+    st.heap.set('len', lam([r], z3.If(z3.And(b0 <= r, r < b0 + n), 0, z3.Select(old_len, r))))
+    k = z3.Int(fresh_name('k'))
+    st.heap.wr('el:ref', tbl_ref, lam([k], z3.If(z3.And(0 <= k, k < n), b0 + k, 0)))
+    return Val(('pdict', 'int'), tbl_ref, (b0, n))
+
+
+def pdict_get(eng, st, base, key, node):
+    tbl = st.heap.rd('el:ref', base.t)
+    cur = z3.Select(tbl, key)
+    if not st.spec:
+        if 'KeyError' in eng.frame.exc_ok:
+            st.pending_raises.append((cur == 0, 'KeyError', len(st.pc)))
+        else:
+            eng.oblige(st, "noexc:KeyError@L%d" % node.lineno, 'noexc', cur != 0, node)
+        st.assume(cur != 0)
+    return Val(('list', 'int'), cur)
